@@ -1087,3 +1087,68 @@ theorem C03.reusing_out_as_temporary_is_wrong :
       (fun _ _ => 99) e hok rfl s 0 1 (by simp [s]) (by simp [s]) (by omega)
     exact ⟨s', e1, by rw [v1]; simp [e, s, den, accumLeaf]⟩
   · exact ⟨_, by simp only [callI, accumLeaf]; rfl, by simp [St.write]⟩
+
+namespace OdlModel.C03
+/-- The top node is an expression class whose out-of-place `_call` builds its result by
+element arithmetic (`left(x) + right(x)`, `op(x) + v`, `l(x) * r(x)`, `s * op(x)`, `op(x) * v`,
+`v * f(x)`). -/
+def TopAllocates {K : Type} : Op K → Prop
+  | .sum _ _ | .vecsum _ _ | .pwprod _ _ | .lscal _ _ | .lvec _ _ | .flvm _ _ => True
+  | _ => False
+end OdlModel.C03
+
+/-- RESULT OWNERSHIP on the model (what the ownership oracle tests): whatever the operands do —
+even operands that return their argument or an existing object — `op(x)` of an
+`OperatorSum`, `OperatorVectorSum`, `OperatorPointwiseProduct`, `OperatorLeftScalarMult`,
+`OperatorLeftVectorMult`, `FunctionalLeftVectorMult` over any well-formed tree (any depth, leaves
+need not be alias safe) returns a NEW object: not `x`, not any object that existed before the
+call, so the caller may overwrite it without changing `x` or anything else. -/
+theorem C03.wrapper_result_is_new_object {K : Type} [Add K] [Mul K] (A : Prop)
+    (jk : Nat → Vec K) (e : Op K) (h : AllOKg A e) (ht : TopAllocates e)
+    (s : St K) (x : Nat) (hx : x < s.next) :
+    ∃ r s', callO jk e x s = .ok r s' ∧ s.next ≤ r ∧ r ≠ x := by
+  cases e with
+  | sum a b =>
+    obtain ⟨ra, s1, e1, u1, n1, v1, f1⟩ := C03.call_out_of_place_gen A jk a h.1 s x hx
+    obtain ⟨rb, s2, e2, u2, n2, v2, f2⟩ := C03.call_out_of_place_gen A jk b h.2.1 s1 x (by omega)
+    exact ⟨s2.next, _, by simp only [callO, e1, bind_ok, e2, alloc]; rfl, by omega, by omega⟩
+  | vecsum a v =>
+    obtain ⟨ra, s1, e1, u1, n1, v1, f1⟩ := C03.call_out_of_place_gen A jk a h.1 s x hx
+    exact ⟨s1.next, _, by simp only [callO, e1, bind_ok, alloc]; rfl, by omega, by omega⟩
+  | pwprod a b =>
+    obtain ⟨ra, s1, e1, u1, n1, v1, f1⟩ := C03.call_out_of_place_gen A jk a h.1 s x hx
+    obtain ⟨rb, s2, e2, u2, n2, v2, f2⟩ := C03.call_out_of_place_gen A jk b h.2.1 s1 x (by omega)
+    exact ⟨s2.next, _, by simp only [callO, e1, bind_ok, e2, alloc]; rfl, by omega, by omega⟩
+  | lscal a c =>
+    obtain ⟨ra, s1, e1, u1, n1, v1, f1⟩ := C03.call_out_of_place_gen A jk a h s x hx
+    exact ⟨s1.next, _, by simp only [callO, e1, bind_ok, alloc]; rfl, by omega, by omega⟩
+  | lvec a v =>
+    obtain ⟨ra, s1, e1, u1, n1, v1, f1⟩ := C03.call_out_of_place_gen A jk a h s x hx
+    exact ⟨s1.next, _, by simp only [callO, e1, bind_ok, alloc]; rfl, by omega, by omega⟩
+  | flvm f v =>
+    obtain ⟨ra, s1, e1, u1, n1, v1, f1⟩ := C03.call_out_of_place_gen A jk f h s x hx
+    exact ⟨s1.next, _, by simp only [callO, e1, bind_ok, alloc]; rfl, by omega, by omega⟩
+  | leaf l => exact absurd ht (by simp [TopAllocates])
+  | comp a b => exact absurd ht (by simp [TopAllocates])
+  | rscal a c => exact absurd ht (by simp [TopAllocates])
+  | rvec a v => exact absurd ht (by simp [TopAllocates])
+
+/-- SECOND CALL (what the `second-call-same-result` oracle tests), for every well-formed tree:
+after `op(x)` a second `op(x)` on the store the first call left behind returns the same value —
+the first call changed neither `x` nor anything the tree depends on. -/
+theorem C03.second_call_same_value {K : Type} [Add K] [Mul K] (A : Prop) (jk jk' : Nat → Vec K)
+    (e : Op K) (h : AllOKg A e) (s : St K) (x : Nat) (hx : x < s.next) :
+    ∃ r1 s1 r2 s2, callO jk e x s = .ok r1 s1 ∧ callO jk' e x s1 = .ok r2 s2 ∧
+      s2.mem r2 = s1.mem r1 ∧ s2.mem x = s.mem x := by
+  obtain ⟨r1, s1, e1, u1, n1, v1, f1⟩ := C03.call_out_of_place_gen A jk e h s x hx
+  obtain ⟨r2, s2, e2, u2, n2, v2, f2⟩ := C03.call_out_of_place_gen A jk' e h s1 x (by omega)
+  exact ⟨r1, s1, r2, s2, e1, e2, by rw [v2, v1, f1 x hx], by rw [f2 x (by omega), f1 x hx]⟩
+
+/-- Non-vacuity: `RealPart + v` (a vector sum over the leaf that returns its argument): the
+result is a new object although the operand returned `x` itself. -/
+example : ∃ r s', callO (fun _ _ => (0 : Int)) (.vecsum (.leaf retInputLeaf) (fun _ => 7)) 0
+    ⟨fun _ _ => 5, 1⟩ = .ok r s' ∧ 1 ≤ r ∧ r ≠ 0 := by
+  have hl : AllOKg False (Op.leaf (retInputLeaf (K := Int))) :=
+    C03.allOK_weaken False (.leaf retInputLeaf) C03.ret_input_leaf_ok
+  have hok : AllOKg False (Op.vecsum (.leaf (retInputLeaf (K := Int))) (fun _ => 7)) := ⟨hl, rfl⟩
+  exact C03.wrapper_result_is_new_object False _ _ hok trivial ⟨fun _ _ => 5, 1⟩ 0 (by simp)
